@@ -1027,7 +1027,7 @@ class G:
         for _ in range(n):
             for s in self.stmt(sc, ctx):
                 self.items.append(("stmt", s))
-        return {"items": self.items}
+        return {"items": self.items, "excluded": self.excluded}
 
 
 @st.composite
